@@ -1725,41 +1725,43 @@ class Tensor:
 
         graph = _dup.DuplicatingGraph(self if self.base is None else self.base)
 
-        # Create copy of base so that mutation has no impact on the
-        # state of any ops depending on it or its views
-        mutant_base = graph.base.tensor.copy()
-        mutant_base.data.flags.writeable = (
-            graph.base.tensor.data.flags.writeable
-            or _mem.array_is_tracked(graph.base.tensor.data)
-        )
-
-        # Create view of base in correspondence to relationship
-        # that `self` has to base. Mutating this view will mutate
-        # base appropriately
-        inplace_target = mutant_base
-
-        # stores view-fn sequence from base -> in-place target
-        view_fn_sequence: List[Callable[[np.ndarray], np.ndarray]] = []
-
-        with _track.no_autodiff:
-            # get view sequence from base -> in-place target
-            for node in graph.get_path_to_base(self)[::-1][1:]:  # skip base
-                # need to point to place-holder replay op to avoid creating
-                # forwards references to downstream tensors
-                f = node.placeholder._replay_op
-                if self.base is not None:
-                    # need sequence of view-ops
-                    view_fn_sequence.append(_track.no_autodiff(f, to_numpy=True))
-                inplace_target = f(inplace_target)
-
-        # Constant info was not propagated through no-autodiff mode.
-        # It must be inferred from the original tensor
-        inplace_target._constant = mutant_base.constant
-
-        mutant_base_data = mutant_base.data
-        del mutant_base
-
+        # From here on the recorded ops have been re-routed through placeholders;
+        # whatever fails before the in-place operation has succeeded must put them back
         try:
+            # Create copy of base so that mutation has no impact on the
+            # state of any ops depending on it or its views
+            mutant_base = graph.base.tensor.copy()
+            mutant_base.data.flags.writeable = (
+                graph.base.tensor.data.flags.writeable
+                or _mem.array_is_tracked(graph.base.tensor.data)
+            )
+
+            # Create view of base in correspondence to relationship
+            # that `self` has to base. Mutating this view will mutate
+            # base appropriately
+            inplace_target = mutant_base
+
+            # stores view-fn sequence from base -> in-place target
+            view_fn_sequence: List[Callable[[np.ndarray], np.ndarray]] = []
+
+            with _track.no_autodiff:
+                # get view sequence from base -> in-place target
+                for node in graph.get_path_to_base(self)[::-1][1:]:  # skip base
+                    # need to point to place-holder replay op to avoid creating
+                    # forwards references to downstream tensors
+                    f = node.placeholder._replay_op
+                    if self.base is not None:
+                        # need sequence of view-ops
+                        view_fn_sequence.append(_track.no_autodiff(f, to_numpy=True))
+                    inplace_target = f(inplace_target)
+
+            # Constant info was not propagated through no-autodiff mode.
+            # It must be inferred from the original tensor
+            inplace_target._constant = mutant_base.constant
+
+            mutant_base_data = mutant_base.data
+            del mutant_base
+
             with _mem.mem_guard_off:
                 placeholder_mutant_view = (
                     self._op(  # will raise if original data not writeable
